@@ -661,8 +661,30 @@ def _ev_attribute(self, n):
 def _ev_call3(self, n):
     if self.c.py_mode and getattr(self.c, "vectors", False):
         fn = self.fname(n.func)
-        if fn in ("np.maximum", "np.minimum", "numpy.maximum", "numpy.minimum") and len(n.args) == 2:
+        kws = {k.arg: k.value for k in n.keywords}
+        if fn in ("np.maximum", "np.minimum", "numpy.maximum", "numpy.minimum") and len(n.args) == 2 and set(kws) <= {"out"}:
             a, b = self.ev(n.args[0]), self.ev(n.args[1])
+            if a.k == "arr" and b.k == "arr" and a.t.ndim == b.t.ndim and "out" in kws:
+                # out=<array>: the result is written into that array (operands are read first - NumPy buffers overlapping
+                # operands), which is returned
+                o = self.ev(kws["out"])
+                if o.k != "arr" or o.t.ndim != a.t.ndim:
+                    raise Undecidable("out= target of np.minimum / np.maximum")
+                isf = a.t.elem.kind == "float" or b.t.elem.kind == "float"
+                mx = fn.endswith("maximum")
+
+                def g(x, y):
+                    xt = self.to_float(x) if isf else self.to_int(x)
+                    yt = self.to_float(y) if isf else self.to_int(y)
+                    return z3.If(xt >= yt, xt, yt) if mx else z3.If(xt <= yt, xt, yt)
+                r = self.elementwise(g, a, b, elem=o.t.elem.name)
+                if r.t.sort != o.t.sort:
+                    raise Undecidable("out= target of another element sort")
+                for d in range(a.t.ndim):
+                    self.oblige("shape", f"{symex.src_of(n)}: out= array has the shape of the result (axis {d})",
+                                o.t.shape[d] == r.t.shape[d], n)
+                self.heap[o.t.id] = self.heap[r.t.id]
+                return o
             if a.k == "arr" and b.k == "arr" and a.t.ndim == b.t.ndim:
                 isf = a.t.elem.kind == "float" or b.t.elem.kind == "float"
                 mx = fn.endswith("maximum")
